@@ -319,6 +319,19 @@ class Inliner:
             for h in getattr(st, "handlers", []) or []:
                 changed |= self.inline_block(h.body, cname, owner)
             done_here = False
+            # `if A and B and <helper call>:` (no else): the call is evaluated only when A and B hold -- rewritten as
+            # `if A and B: <inlined>; if <result>: body`, which evaluates the same things in the same cases
+            if isinstance(st, ast.If) and not st.orelse and isinstance(st.test, ast.BoolOp) and isinstance(st.test.op, ast.And) and len(st.test.values) >= 2:
+                last = st.test.values[-1]
+                inner = last.operand if isinstance(last, ast.UnaryOp) and isinstance(last.op, ast.Not) else last
+                if isinstance(inner, ast.Call) and self.resolve(inner, cname) is not None and self.resolve(inner, cname)[0] is not owner:
+                    head_vals = st.test.values[:-1]
+                    head = head_vals[0] if len(head_vals) == 1 else ast.BoolOp(op=ast.And(), values=head_vals)
+                    inner_if = ast.If(test=last, body=st.body, orelse=[], lineno=st.lineno, col_offset=0)
+                    st.test = head
+                    st.body = [inner_if]
+                    changed = True
+                    continue          # re-scan this statement: its body now holds a hoistable call
             for call in _hoistable_calls(st):
                 r = self.resolve(call, cname)
                 if r is None:
